@@ -126,12 +126,15 @@ def resolve_sub(function_body, params: Dict, mappings: Dict[str, Dict], conditio
         replacements = {**params, **resolve(custom_replacements, params, mappings, conditions)}
     else:
         text = function_body
-    for match in CONTAINS_CF_PARAM.findall(text):
-        match_param = match[2:-1]  # Remove ${ and trailing }
+
+    def replace_placeholder(match):
+        match_param = match.group(0)[2:-1]  # Remove ${ and trailing }
         if match_param in replacements:
-            value = resolve(replacements[match_param], params, mappings, conditions)
-            text = text.replace(match, str(value))
-    return text
+            return str(resolve(replacements[match_param], params, mappings, conditions))
+        return match.group(0)
+
+    # Single pass: the text of a substituted value is never scanned again
+    return CONTAINS_CF_PARAM.sub(replace_placeholder, text)
 
 
 def resolve_select(function_body, params: Dict, mappings: Dict[str, Dict], conditions: Dict[str, bool]):
